@@ -31,6 +31,7 @@ func init() {
 			{ID: "C06.8", Doc: "'an ID valid for its IP' is BEP 42 as specified: the 21 ID bits, the CRC input and the local-address exemption (shared with C17.1–C17.3)", Floor: 15, Run: func(w *World, rr *RuleRun) { c17r1(w, rr); c17r2(w, rr); c17r3(w, rr) }},
 			{ID: "C06.9", Doc: "a message flag (read-only) or sender id cannot leak from an earlier datagram: fresh decode target per datagram (shared with C07.7)", Floor: 1, Run: c07r7},
 			{ID: "C06.10", Doc: "the 'failed its liveness ping' mark is set only after the maintenance ping of that very contact failed, and cleared only together with recording a matched response", Floor: 2, Run: c06r10},
+			{ID: "C06.11", Doc: "entries leave the table only through the eviction rule: single writer of the table indexes (shared with C05.1)", Floor: 8, Run: c05r1},
 			{ID: "C06.5", Doc: "blocked sources dropped first", Floor: 3, Run: c19r2},
 		},
 	})
